@@ -206,7 +206,7 @@ def make_programs(ctx):
     ]
     assert len(corpus) == N_CORPUS
     progs = [list(p) for p in corpus]
-    n_rand = 70 if ctx.tier == "quick" else 700
+    n_rand = 85 if ctx.tier == "quick" else 450
     maxlen = 4 if ctx.tier == "quick" else 7
     for i in range(n_rand):
         cols = dict(cols0)
@@ -250,23 +250,30 @@ def has_dup(names):
     return len(set(names)) < len(names)
 
 
-def signature(o, cn, model_ok):
+def signature(o, cn, cr, model_ok):
     """shape predicate of an implementation-vs-property deviation"""
     k = o[0]
     sfx = "" if model_ok else ":not-reproduced-by-model"
-    if k == "headN" and o[1] == 0 and len(o[2]) == 1:
+    if k == "headN" and o[1] == 0 and len(o[2]) == 1 and o[2][0] in cr:
         return "C11/head-0-returns-a-row" + sfx
     if k in ("show", "showT", "showD"):
         res = o[2]
+        n = PYSPARK_SHOW_DEFAULT if k == "showD" else o[1]
         if res and res[0] == "raised":
-            if has_dup(cn) and res[1] == "ValueError":
+            if has_dup(ref_ufn(cn)) and res[1] == "ValueError":     # name_<i> equals another column's name
                 return "C11/show-raises-on-colliding-renamed-name" + sfx
             return f"C11/show-raises:{res[1]}" + sfx
         names, body = res
-        if not names and not body and cn:
+        if not names and not body and cn and min(n, len(cr)) == 0:
             return "C11/show-without-rows-omits-column-names" + sfx
-        if has_dup(cn) and len(names) == len(cn):
-            return "C11/show-duplicate-names-repeat-first-column" + sfx
+        if has_dup(cn) and names == ref_ufn(cn):
+            # every column printed with the values of the first column of the same name?
+            first = {}
+            for i, c in enumerate(cn):
+                first.setdefault(c, i)
+            if all(len(r) == len(cn) for r in body) and len(body) == min(n, len(cr)) and \
+                    all(r[i] == r[first[c]] for r in body for i, c in enumerate(cn)):
+                return "C11/show-duplicate-names-repeat-first-column" + sfx
         return "C11/show-differs" + sfx
     if k == "raised":
         return f"C11/raises:{o[1][0]}:{o[2]}"
@@ -318,6 +325,7 @@ def run(ctx: core.Ctx):
         proved = False
         ctx.coqc(ctx.build + "/gen/C01Facts.v")
         ctx.coqc(ctx.build + "/gen/C11Facts.v")
+    refute_failed = prove_refutations(ctx) if t1_ok else {}
     # ---- T3
     from sqlframe.duckdb import DuckDBSession
     import sqlframe.duckdb.functions as F
@@ -421,7 +429,7 @@ def run(ctx: core.Ctx):
             n_model_ok += mo
             desc = dict(desc0, action=list(m["acts"][j]), returned=o, spec_ok=sp, model_ok=mo)
             if not sp:
-                sig = signature(o, m["cn"], mo)
+                sig = signature(o, m["cn"], m["cr"], mo)
                 cur = devs.get(sig)
                 size = (len(m["steps"]), len(TABLES[m["table"]]))
                 if cur is None or size < cur[0]:
@@ -441,6 +449,15 @@ def run(ctx: core.Ctx):
                 }.get(sig, "an action disagrees with what collect() returns on the same DataFrame")
         desc["pyspark"] = "see oracle/c11_pyspark.json (recorded from PySpark 3.5.9 by oracle/record_c11.py)"
         ctx.deviation(sig, what, desc)
+    moot = []
+    for sig, err in refute_failed.items():
+        if sig in devs:   # the implementation still shows the finding but the model no longer reproduces it
+            ctx.broken("proof:C11_refuted.v:" + sig, "refutation no longer provable although the finding still reproduces\n" + err)
+        else:
+            moot.append(sig)
+            ctx.log(f"{sig}: not observed on the implementation any more and its refutation no longer holds of the "
+                    "generated facts (defect repaired?) -- remove the entry from the known findings")
+    ctx.coverage["refutations_moot_because_finding_no_longer_reproduces"] = moot
     if collect_fail:
         ctx.broken("T3:collect-impl-vs-model", f"{len(collect_fail)} cases where collect() differs from the model's chain "
                    f"evaluation (C01's tie); first: {collect_fail[0]['program']}", data=collect_fail[:3])
@@ -477,6 +494,43 @@ def run(ctx: core.Ctx):
         "Spec (head_spec/show_spec and the relations of ActionsCheck.spec_ok) validated against PySpark 3.5.9 recordings (oracle/c11_pyspark.json)",
     ]
     ctx.trusted += ["translate/c11_facts.py (fail-closed ast translator) and vlib/py2v.py", "checks/c11.py harness (runner, canonicaliser, show() parser)"]
+
+
+def prove_refutations(ctx) -> dict:
+    """compile every chunk of coq/props/C11_refuted.v on its own; -> {signature: coqc error} of those that failed"""
+    import re
+    src = open(core.COQ + "/props/C11_refuted.v").read()
+    parts = re.split(r"\(\* == refutes: (\S+) == \*\)\n", src)
+    pre, failed = parts[0], {}
+    for k, (sig, body) in enumerate(zip(parts[1::2], parts[2::2])):
+        path = ctx.gen(f"C11_refuted_{k}", pre + "\n" + body)
+        gate = core.grep_gate([path])
+        n = core.count_obligations(path) - 0
+        if gate:
+            ctx.broken("axiom-gate:C11_refuted.v", "; ".join(gate[:5]))
+            continue
+        rc, out, err, dt, cmd = ctx.coqc(path)
+        ctx.checker_cmds.append(cmd)
+        if rc == 0:
+            ctx.obligations += n
+            ctx.discharged += n
+            for blk in core.parse_assumptions(out):
+                ctx.assumptions_printed.append(f"C11_refuted.v[{sig}]: {blk}")
+        else:
+            failed[sig] = (err or out)[-1500:]
+            ctx.log(f"refutation of {sig} no longer compiles")
+    ctx.coverage["refutations_checked"] = len(parts) // 2
+    return failed
+
+
+def ref_ufn(fields):
+    """the renaming algorithm the listed findings refer to (reference copy, only used to classify deviations)"""
+    out = []
+    for i, f in enumerate(fields):
+        if f in out:
+            f = f + "_" + str(i)
+        out.append(f)
+    return out
 
 
 def _size(o):
